@@ -166,6 +166,14 @@ fn inner(prop: &str, mut t: Tape, rep: &mut WorldReport) {
     let mut world = World::new(Tape::replay(vec![]));
     gen_ledger(&mut t, &mut world, &program, &ledger_cfg);
     world.cfg = faults.clone();
+    if stratum == "faults" && t.draw(6) == 5 {
+        // the wall clock is stepped while a resolution is in flight (NTP correction, operator): back
+        // by seconds, an hour or more than a year, or forward by a day; the monotonic clock is not
+        let at = t.draw(30);
+        let delta_s: i64 = *t.pick(&[-5i64, -3600, 86_400, -400 * 86_400, 5]);
+        world.realtime_step = Some((at, delta_s * 1_000_000_000));
+        world.fire("clock-step");
+    }
     world.tape = t;
     let initial_ledger = world.chain.describe();
     let w = world.into_shared();
@@ -351,6 +359,7 @@ fn run_e2e(
     sig: &mut crate::tape::Digest,
 ) -> serde_json::Value {
     let byz = w.lock().unwrap().cfg.byz_permille > 0;
+    let chain_before = w.lock().unwrap().chain.clone();
     // one resolution in six hands the real instance to the resolver without the recording wrapper
     // (which only forwards the trait methods it knows): the round-level oracles are silent then, the
     // outcome-level ones (crash, decode, well-formedness, balance, echo) judge as usual
@@ -384,6 +393,32 @@ fn run_e2e(
     }
     sig.str(&res.outcome.kind().chars().take(24).collect::<String>());
     sig.u64(res.rounds.len() as u64);
+    // completeness end to end (C03): `input not resolved` out of a later fee round is judged like one
+    // out of inputs::resolve, with the thresholds of the round that failed - the fee the previous
+    // round reported (nothing before the first). Static ledger, truthful answers, recorded rounds only.
+    if let Outcome::Err { kind, .. } = &res.outcome {
+        let view_faults = w.lock().unwrap().res_view_faults;
+        if let Some(name) = kind.strip_prefix("InputNotResolved/") {
+            if !plain && !byz && !res.moved && view_faults == 0 && comp.fail_compile_at.is_none() && comp.fail_op_at.is_none() {
+                let all_ok = res.rounds.iter().all(|r| r.out.is_ok());
+                let fee_in: Option<i128> = match res.rounds.last() {
+                    None => Some(0),
+                    Some(r) => r.out.as_ref().ok().map(|c| c.fee as i128),
+                };
+                if let (true, Some(f)) = (all_ok, fee_in) {
+                    let its_f = intents(program, txspec, args, Some(f), None);
+                    let before = rep.violations.len();
+                    check_completeness(rep, &its_f, name.split(':').next().unwrap_or(name).trim(), &chain_before, &[], &format!("{ctx} (resolve_tx, after {} compiled round(s), fee {f})", res.rounds.len()));
+                    if rep.violations.len() > before {
+                        for v in rep.violations[before..].iter_mut() {
+                            v.shape = format!("{}/end-to-end", v.shape);
+                        }
+                    }
+                    rep.probe("cmp-judged-end-to-end");
+                }
+            }
+        }
+    }
     let served = w.lock().unwrap().served.clone();
     // selection clauses that do not depend on the round's fee: address, ref, arity, collateral, served, disjointness
     let its = intents(program, txspec, args, None, None);
@@ -1222,6 +1257,14 @@ fn inner_examples(world_no: u64, mut t: Tape, rep: &mut WorldReport) {
     }
 
     world.cfg = faults.clone();
+    if stratum == "faults" && t.draw(6) == 5 {
+        // the wall clock is stepped while a resolution is in flight (NTP correction, operator): back
+        // by seconds, an hour or more than a year, or forward by a day; the monotonic clock is not
+        let at = t.draw(30);
+        let delta_s: i64 = *t.pick(&[-5i64, -3600, 86_400, -400 * 86_400, 5]);
+        world.realtime_step = Some((at, delta_s * 1_000_000_000));
+        world.fire("clock-step");
+    }
     world.tape = t;
     let ledger = world.chain.describe();
     let w = world.into_shared();
